@@ -1087,3 +1087,194 @@ Proof.
     destruct Hw as [Hw0 Hw1]. destruct (spent_step t o t1 out k E Hw0 Hs) as [Hs1 _].
     eapply IH; eauto.
 Qed.
+
+(* ------------------------------------------------------------------ node contexts and slot reuse *)
+(* remove / clear leave node_context_data alone, so stale contexts stay behind in the secondary map.  They are never
+   attributed to a new node: every stored context sits at or below the current version of its slot, and a creation
+   hands out a strictly larger version. *)
+
+Definition ctx_inv (t : tree) : Prop :=
+  forall idx ver c, nth_error (t_ctx t) idx = Some (Some (ver, c)) ->
+    exists s, nth_error (sm_slots (t_nodes t)) idx = Some s /\ (ver <= s_ver s)%N.
+
+Definition ver_mono {V} (m m' : slotmap V) : Prop :=
+  forall idx s, nth_error (sm_slots m) idx = Some s -> exists s', nth_error (sm_slots m') idx = Some s' /\ (s_ver s <= s_ver s')%N.
+
+Lemma ver_mono_refl {V} (m : slotmap V) : ver_mono m m.
+Proof. intros idx s H. exists s. split; [exact H | lia]. Qed.
+
+Lemma ver_mono_insert {V} (m : slotmap V) v : ver_mono m (fst (sm_insert m v)).
+Proof.
+  intros idx s Hs. unfold sm_insert. destruct (nth_error (sm_slots m) (sm_free m)) as [s0|] eqn:Ef; cbn [fst sm_slots].
+  - destruct (Nat.eq_dec (sm_free m) idx) as [E|E].
+    + subst idx. assert (s0 = s) by congruence. subst s0.
+      exists (mkSlot (N.lor (s_ver s) 1) (Occ v)). split; [apply nth_error_upd_eq; eapply nth_error_Some_lt; eauto|].
+      simpl. apply le_lor_1.
+    + exists s. rewrite nth_error_upd_neq by exact E. split; [exact Hs | lia].
+  - exists s. rewrite nth_error_app1 by (eapply nth_error_Some_lt; eauto). split; [exact Hs | lia].
+Qed.
+
+Lemma ver_mono_remove {V} (m : slotmap V) k : no_wrap m -> ver_mono m (fst (sm_remove m k)).
+Proof.
+  intros Hw idx s Hs. unfold sm_remove. destruct (sm_contains m k); [|exists s; split; [exact Hs | lia]].
+  unfold sm_remove_from_slot. destruct (nth_error (sm_slots m) (fst k)) as [s0|] eqn:E0; cbn [fst sm_slots];
+    [|exists s; split; [exact Hs | lia]].
+  destruct (Nat.eq_dec (fst k) idx) as [E|E].
+  - rewrite E in E0. assert (s0 = s) by congruence. subst s0. pose proof (Forall_nth Hw Hs) as Hws. cbv beta in Hws.
+    exists (mkSlot (wrap32 (s_ver s + 1)) (Vac (sm_free m))). split; [rewrite E; apply nth_error_upd_eq; eapply nth_error_Some_lt; eauto|].
+    simpl. rewrite (wrap32_succ_small _ Hws). lia.
+  - exists s. rewrite nth_error_upd_neq by exact E. split; [exact Hs | lia].
+Qed.
+
+Lemma ver_mono_clear {V} (m : slotmap V) : no_wrap m -> ver_mono m (sm_clear m).
+Proof.
+  intros Hw idx s Hs. destruct (bumped_clear m idx s Hs) as [s' [Hs' Hv]]. exists s'. split; [exact Hs'|].
+  destruct Hv as [E|[_ E]]; [lia|]. pose proof (Forall_nth Hw Hs) as Hws. cbv beta in Hws.
+  rewrite E, (wrap32_succ_small _ Hws). lia.
+Qed.
+
+Lemma ver_mono_set {V} (m m' : slotmap V) k v : sm_set m k v = Ok m' -> ver_mono m m'.
+Proof.
+  intros H idx s Hs. apply sm_set_inv in H. destruct H as [old [Ho ->]]. apply sm_get_Some in Ho. cbn [sm_slots].
+  destruct (Nat.eq_dec (fst k) idx) as [E|E].
+  - rewrite E in Ho. assert (Es : s = mkSlot (snd k) (Occ old)) by congruence. subst s.
+    exists (mkSlot (snd k) (Occ v)). split; [rewrite E; apply nth_error_upd_eq; eapply nth_error_Some_lt; eauto | simpl; lia].
+  - exists s. rewrite nth_error_upd_neq by exact E. split; [exact Hs | lia].
+Qed.
+
+(* entries of the secondary map after insert / remove *)
+Lemma sec_extend_entry {C} (m : secmap C) n idx e : nth_error (sec_extend m n) idx = Some (Some e) -> nth_error m idx = Some (Some e).
+Proof.
+  unfold sec_extend. intros H. destruct (Nat.lt_ge_cases idx (length m)) as [Hl|Hl].
+  - rewrite nth_error_app1 in H by exact Hl. exact H.
+  - rewrite nth_error_app2 in H by exact Hl. apply nth_error_In in H. apply repeat_spec in H. discriminate.
+Qed.
+
+Lemma sec_insert_entry {C} (m : secmap C) k c idx ver x :
+  nth_error (sec_insert m k c) idx = Some (Some (ver, x)) ->
+  (idx = fst k /\ ver = snd k) \/ nth_error m idx = Some (Some (ver, x)).
+Proof.
+  unfold sec_insert. set (m1 := sec_extend m (S (fst k))).
+  assert (Hup : nth_error (upd m1 (fst k) (Some (snd k, c))) idx = Some (Some (ver, x)) ->
+                (idx = fst k /\ ver = snd k) \/ nth_error m idx = Some (Some (ver, x))).
+  { intros H. destruct (Nat.eq_dec (fst k) idx) as [E|E].
+    - subst idx. left. split; [reflexivity|].
+      assert (Hl : fst k < length m1) by (unfold m1, sec_extend; rewrite app_length, repeat_length; lia).
+      rewrite (nth_error_upd_eq m1 (fst k) (Some (snd k, c)) Hl) in H. inversion H. reflexivity.
+    - right. rewrite nth_error_upd_neq in H by exact E. eapply sec_extend_entry; eauto. }
+  destruct (nth_error m1 (fst k)) as [[[v0 c0]|]|] eqn:E1; try exact Hup.
+  destruct (N.eqb v0 (snd k)); [exact Hup|]. destruct (is_older_version (snd k) v0); [|exact Hup].
+  intros H. right. eapply sec_extend_entry; eauto.
+Qed.
+
+Lemma sec_remove_entry {C} (m : secmap C) k idx e : nth_error (sec_remove m k) idx = Some (Some e) -> nth_error m idx = Some (Some e).
+Proof.
+  unfold sec_remove. destruct (nth_error m (fst k)) as [[[v0 c0]|]|] eqn:E1; try (intros H; exact H).
+  destruct (N.eqb v0 (snd k)); [|intros H; exact H].
+  intros H. destruct (Nat.eq_dec (fst k) idx) as [E|E].
+  - subst idx. rewrite nth_error_upd_eq in H by (eapply nth_error_Some_lt; eauto). discriminate.
+  - rewrite nth_error_upd_neq in H by exact E. exact H.
+Qed.
+
+(* what an operation does to the context map *)
+Definition ctx_rel (t : tree) (o : op) (cx' : secmap N) : Prop :=
+  match o with
+  | ONewLeafCtx c => cx' = sec_insert (t_ctx t) (snd (sm_insert (t_nodes t) true)) c
+  | OSetCtx n (Some v) => cx' = sec_insert (t_ctx t) n v
+  | OSetCtx n None => cx' = sec_remove (t_ctx t) n
+  | _ => cx' = t_ctx t
+  end.
+
+Lemma remove_child_at_ctx t p i x : remove_child_at_index t p i = Ok x -> t_ctx (fst x) = t_ctx t.
+Proof. unfold remove_child_at_index. intros H. inv_bind H; inversion H; reflexivity. Qed.
+
+Lemma remove_child_ctx t p c x : remove_child t p c = Ok x -> t_ctx (fst x) = t_ctx t.
+Proof. unfold remove_child. intros H. inv_bind H. eapply remove_child_at_ctx; eauto. Qed.
+
+Lemma set_children_loop_ctx p cs : forall u t2, set_children_loop u p cs = Ok t2 -> t_ctx t2 = t_ctx u.
+Proof.
+  induction cs as [|c r IH]; intros u t2 H; simpl in H; [inversion H; reflexivity|].
+  inv_bind H. apply IH in H. cbn [set_parents_map t_ctx] in H. rewrite H.
+  destruct a as [prev|].
+  - inv_bind E0. destruct (snd a) eqn:Es; inversion E0; subst; eapply remove_child_ctx; eauto.
+  - inversion E0. reflexivity.
+Qed.
+
+Lemma step_ctx t o t' out : step t o = Ok (t', out) -> ctx_rel t o (t_ctx t').
+Proof.
+  destruct o; cbn [step ctx_rel]; intros H.
+  - unfold new_leaf in H. inversion H. reflexivity.
+  - unfold new_leaf_with_context in H. inversion H. reflexivity.
+  - unfold new_with_children in H. inv_bind H. inversion H. reflexivity.
+  - unfold add_child in H. inv_bind H. inversion H. reflexivity.
+  - unfold insert_child_at_index in H. inv_bind H; inversion H; reflexivity.
+  - unfold set_children in H. inv_bind H. inversion H. cbn [set_children_map t_ctx].
+    apply set_children_loop_ctx in E1. exact E1.
+  - apply remove_child_ctx in H. exact H.
+  - apply remove_child_at_ctx in H. exact H.
+  - unfold remove_children_range in H. inv_bind H; inversion H; reflexivity.
+  - unfold replace_child_at_index in H. inv_bind H; inversion H; reflexivity.
+  - unfold remove in H. inv_bind H. inversion H. reflexivity.
+  - unfold clear in H. inversion H. reflexivity.
+  - unfold set_node_context in H. destruct c; inv_bind H; inversion H; reflexivity.
+Qed.
+
+Lemma ctx_inv_new : ctx_inv tree_new.
+Proof. intros idx ver c H. simpl in H. destruct idx as [|[|idx]]; simpl in H; discriminate. Qed.
+
+Lemma ctx_inv_mono t t' : ctx_inv t -> t_ctx t' = t_ctx t -> ver_mono (t_nodes t) (t_nodes t') -> ctx_inv t'.
+Proof.
+  intros Hc Ex Hm idx ver c H. rewrite Ex in H. destruct (Hc idx ver c H) as [s [Hs Hle]].
+  destruct (Hm idx s Hs) as [s' [Hs' Hle']]. exists s'. split; [exact Hs' | lia].
+Qed.
+
+Theorem ctx_inv_step t o t' out : WF t -> no_wrap (t_nodes t) -> ctx_inv t -> step t o = Ok (t', out) -> ctx_inv t'.
+Proof.
+  intros W Hw Hc H. pose proof (step_nodes t o t' out H) as Hn. pose proof (step_ctx t o t' out H) as Hx.
+  destruct o; cbn [nodes_rel ctx_rel] in Hn, Hx;
+    try (apply (ctx_inv_mono t t' Hc Hx); rewrite Hn; apply ver_mono_refl).
+  - destruct Hn as [Hn _]. apply (ctx_inv_mono t t' Hc Hx). rewrite Hn. apply ver_mono_insert.
+  - (* new_leaf_with_context *)
+    destruct Hn as [Hn _]. intros idx ver c0 He. rewrite Hx in He.
+    destruct (sm_insert_spec (t_nodes t) true (wf_inv_n t W)) as [_ [Hg _]].
+    specialize (Hg (snd (sm_insert (t_nodes t) true))). rewrite key_eqb_refl in Hg. apply sm_get_Some in Hg.
+    apply sec_insert_entry in He. destruct He as [[-> ->]|He].
+    + rewrite Hn. eexists. split; [exact Hg | simpl; lia].
+    + destruct (Hc idx ver c0 He) as [s [Hs Hle]].
+      destruct (ver_mono_insert (t_nodes t) true idx s Hs) as [s' [Hs' Hle']]. rewrite Hn. exists s'. split; [exact Hs' | lia].
+  - destruct Hn as [Hn _]. apply (ctx_inv_mono t t' Hc Hx). rewrite Hn. apply ver_mono_insert.
+  - apply (ctx_inv_mono t t' Hc Hx). rewrite Hn. apply ver_mono_remove. exact Hw.
+  - apply (ctx_inv_mono t t' Hc Hx). rewrite Hn. apply ver_mono_clear. exact Hw.
+  - (* set_node_context *)
+    destruct Hn as [b Hn]. pose proof (ver_mono_set _ _ _ _ Hn) as Hm.
+    destruct c as [v|].
+    + intros idx ver c0 He. rewrite Hx in He. apply sec_insert_entry in He. destruct He as [[-> ->]|He].
+      * pose proof (sm_get_set_same Hn) as Hg. apply sm_get_Some in Hg. eexists. split; [exact Hg | simpl; lia].
+      * destruct (Hc idx ver c0 He) as [s [Hs Hle]]. destruct (Hm idx s Hs) as [s' [Hs' Hle']]. exists s'. split; [exact Hs' | lia].
+    + intros idx ver c0 He. rewrite Hx in He. apply sec_remove_entry in He.
+      destruct (Hc idx ver c0 He) as [s [Hs Hle]]. destruct (Hm idx s Hs) as [s' [Hs' Hle']]. exists s'. split; [exact Hs' | lia].
+Qed.
+
+(* a node created without a context has none, whatever was stored in its slot before *)
+Theorem fresh_ctx_none t o t' k : WF t -> ctx_inv t -> (o = ONewLeaf \/ exists cs, o = ONewWithChildren cs) ->
+  step t o = Ok (t', RKey k) -> get_node_context t' k = None.
+Proof.
+  intros W Hc Ho H. pose proof (step_nodes t o t' _ H) as Hn. pose proof (step_ctx t o t' _ H) as Hx.
+  assert (Hk : k = snd (sm_insert (t_nodes t) false) /\ t_ctx t' = t_ctx t).
+  { destruct Ho as [->|[cs ->]]; cbn [nodes_rel ctx_rel] in Hn, Hx; destruct Hn as [_ Hn]; inversion Hn; auto. }
+  destruct Hk as [-> Ex]. unfold get_node_context, sec_get. rewrite Ex.
+  destruct (nth_error (t_ctx t) (fst (snd (sm_insert (t_nodes t) false)))) as [[[ver c]|]|] eqn:E; try reflexivity.
+  destruct (Hc _ ver c E) as [s [Hs Hle]].
+  destruct (N.eqb_spec ver (snd (snd (sm_insert (t_nodes t) false)))) as [Ev|]; [|reflexivity]. exfalso.
+  pose proof (wf_inv_n t W) as Hi. destruct Hi as [[fl [Hnd [H0 Hch]]] Hpar _ _].
+  unfold sm_insert in *. destruct (nth_error (sm_slots (t_nodes t)) (sm_free (t_nodes t))) as [s0|] eqn:Ef; cbn [fst snd] in *.
+  - assert (s0 = s) by congruence. subst s0.
+    destruct fl as [|x r]; simpl in Hch; [apply nth_error_Some_lt in Ef; lia|].
+    destruct Hch as [Hx' [fv [fn [Hfx _]]]]. subst x. rewrite Ef in Hfx. inversion Hfx; subst s.
+    pose proof (Forall_nth Hpar Ef) as Hp. unfold is_occ in Hp. simpl in Hp, Hle, Ev.
+    (* the slot is vacant: its version is even, so the new key's version is one more *)
+    assert (Hodd : N.odd (N.lor fv 1) = true) by apply odd_lor_1.
+    assert (Hne : N.lor fv 1 <> fv) by (intros Eq; rewrite Eq in Hodd; congruence).
+    pose proof (le_lor_1 fv). lia.
+  - apply nth_error_Some_lt in Hs. apply nth_error_None in Ef. lia.
+Qed.
